@@ -146,6 +146,49 @@ async def session(net, hyg, plan):
     try:
         if plan.get("bdelay"):
             w.ctl.delay = lambda op, path, n: plan["bdelay"]
+        if plan.get("late_data"):
+            # a transfer accepted under one login; USER for another account (331, no password given) arrives before the data
+            # connection is made: whatever is transferred then belongs to the first login, never to the account named last
+            first, verb, victim = plan["late_data"]
+            p = RawPeer(net, 2121)
+            await p.connect()
+            await p.cmd("USER " + first)
+            if users.get(first) is not None:
+                await p.cmd("PASS " + users[first])
+            port = p.parse_epsv(await p.cmd("EPSV"))
+            target = "/whoami" if verb in ("RETR", "APPE") else ("/d" if verb in ("LIST", "MLSD") else "/up")
+            r1 = await p.cmd(f"{verb} {target}")
+            r2 = await p.cmd("USER " + victim)
+            tree0 = w.tree()
+            got, st = b"", None
+            try:
+                dr, dw = await p.open_data(port)
+                if verb in ("STOR", "APPE"):
+                    dw.write(b"Z" * 7)
+                    dw.close()
+                    await p.read_data(dr, wait=5)
+                else:
+                    got, st = await p.read_data(dr, wait=5)
+                    dw.close()
+            except OSError:
+                st = "refused"
+            await net.settle()
+            await asyncio.sleep(1.5)
+            mon["unauthenticated_command"] += 1
+            transcript = [[f"{verb} {target}", str(r1)[:8]], ["USER " + victim, str(r2)[:8]], ["data", st]]
+            vb = base_of(victim)
+            changed = sorted(k for k in set(w.tree()) | set(tree0) if (k == vb or k.startswith(vb + "/")) and w.tree().get(k) != tree0.get(k))
+            if verb == "RETR" and len(got) == SIZES[victim]:
+                viol.append({"key": "served-before-login:RETR:late-data",
+                             "msg": f"logged in as {first!r}: RETR /whoami (150), USER {victim} (no password), then the data connection: "
+                                    f"{len(got)} bytes arrived - the size of {victim!r}'s file ({first!r}'s has {SIZES.get(first, SIZES[None])})"})
+            if changed:
+                viol.append({"key": f"tree-changed-before-login:{verb}:late-data",
+                             "msg": f"logged in as {first!r}: {verb} {target}, USER {victim} (no password), data connection: {victim!r}'s tree changed at {changed[:3]}"})
+            p.cut("fin")
+            await w.stop()
+            return {"violations": viol, "monitors": mon, "sig": sig_of(transcript), "nontrivial": True,
+                    "sample": {"users": plan["users"], "transcript": transcript}}
         if plan.get("burst"):
             transcript = await burst_session(net, hyg, plan, w, users, viol, mon)
             await w.stop()
@@ -302,6 +345,11 @@ def gen_cases(tier, seed):
                     plans.append({"users": users, "seed": seed, "ucfg": ucfg, "commands": [list(x) for x in seq]})
         for i in range(60 if tier == "quick" else 2000):
             plans.append({"users": "A" if i % 2 else "B", "seed": seed * 7919 + i, "length": 25, "ucfg": ucfg})
+    for first in ("bob", "alice", "anonymous"):
+        for verb in ("RETR", "STOR", "APPE", "LIST", "MLSD"):
+            for victim in ("alice", "carol"):
+                if first != victim:
+                    plans.append({"users": "A", "seed": seed, "late_data": [first, verb, victim]})
     # re-USER and further commands written in one piece, user manager and/or back end that really suspend
     tails = [["PWD", "MKD /pwned", "MLST /whoami", "PASV"], ["CWD /d", "PWD"], ["EPSV", "RETR /whoami"], ["DELE /whoami", "RNFR /whoami"],
              ["STOR /up", "LIST /"], ["PASS wrong", "MLST /whoami", "MKD /x"], ["MLSD /d"], ["PWD"] * 6]
